@@ -209,11 +209,68 @@ fn trust_anchor_grid(chk: &Check) -> Vec<serde_json::Value> {
     out
 }
 
+/// Every way the external command can end: only "exited with status 0" is an acceptance. A helper that is killed by a
+/// signal, cannot be started, or exits with any other status has not accepted anything.
+fn outcome_grid(chk: &Check) -> usize {
+    let dir = format!("{}/target/c07-outcome-{}", VERIF_DIR, std::process::id());
+    let _ = std::fs::create_dir_all(&dir);
+    // (name, script body, accepts?)
+    let outcomes: Vec<(&str, String, bool)> = vec![
+        ("exit 0", "exit 0".into(), true),
+        ("exit 1", "exit 1".into(), false),
+        ("exit 2", "exit 2".into(), false),
+        ("exit 126", "exit 126".into(), false),
+        ("exit 127", "exit 127".into(), false),
+        ("exit 255", "exit 255".into(), false),
+        ("exit 256 (wraps to 0 in the shell)", "exit 256".into(), true),
+        ("killed by SIGKILL", "kill -KILL $$".into(), false),
+        ("killed by SIGABRT", "kill -ABRT $$".into(), false),
+        ("killed by SIGSEGV", "kill -SEGV $$".into(), false),
+        ("killed by SIGTERM", "kill -TERM $$".into(), false),
+        ("prints yes, exits 1", "echo yes; exit 1".into(), false),
+        ("prints no, exits 0", "echo no; exit 0".into(), true),
+    ];
+    let rt = tokio::runtime::Builder::new_current_thread().enable_all().build().unwrap();
+    let mut n = 0;
+    for (i, (name, body, accepts)) in outcomes.iter().enumerate() {
+        let script = format!("{dir}/o{i}.sh");
+        std::fs::write(&script, format!("#!/bin/sh\n{body}\n")).unwrap();
+        for cmd in [format!("[\"/bin/sh\", \"{script}\", \"#USER#\", \"#PASS#\"]")] {
+            let yaml = format!("required: true\ncmd: {cmd}\ncache:\n  timeout: 60\n");
+            // asked twice: the second answer comes from the cache and must be the same verdict
+            let got = rt.block_on(async {
+                let mut auth: AuthData = serde_yaml::from_str(&yaml).expect("auth config");
+                auth.init().await.expect("init");
+                let a = auth.check(&Some(("u".to_string(), "p".to_string()))).await;
+                let b = auth.check(&Some(("u".to_string(), "p".to_string()))).await;
+                (a, b)
+            });
+            n += 1;
+            if got != (*accepts, *accepts) {
+                chk.violation("auth.command", &format!("command-outcome-misread:{}", name.split(' ').take(3).collect::<Vec<_>>().join(" ")), format!("the command ends with: {name}; check() says {:?} (first, cached), expected {accepts}", got), json!({"outcome": name, "script": body}));
+            }
+        }
+    }
+    // a command that cannot be started at all
+    let yaml = "required: true\ncmd: [\"/nonexistent/helper\", \"#USER#\", \"#PASS#\"]\ncache:\n  timeout: 60\n";
+    let got = rt.block_on(async {
+        let mut auth: AuthData = serde_yaml::from_str(yaml).expect("auth config");
+        auth.init().await.expect("init");
+        auth.check(&Some(("u".to_string(), "p".to_string()))).await
+    });
+    n += 1;
+    if got {
+        chk.violation("auth.command", "command-outcome-misread:cannot be started", "the command does not exist; check() says true".to_string(), json!({"outcome": "spawn failure"}));
+    }
+    let _ = std::fs::remove_dir_all(&dir);
+    n
+}
+
 #[test]
 fn check() {
     let chk = Check::new("C07");
     let trust = trust_anchor_grid(&chk);
-    let subst = substitution_grid(&chk);
+    let subst = substitution_grid(&chk) + outcome_grid(&chk);
     let maxlen = if chk.thorough() { 5 } else { 4 };
     let mut hists: Vec<Vec<usize>> = vec![];
     let mut cur: Vec<Vec<usize>> = vec![vec![]];
